@@ -295,6 +295,10 @@ func TestVerifC18(t *testing.T) {
 			}
 		}
 	}
+	c18rb := 1
+	if hx.Thorough() {
+		c18rb = 3
+	}
 	for _, ivs := range []int64{0, 1, 7} {
 		for k := 1; k <= 3; k++ {
 			scs = append(scs, hx.Scenario{Name: fmt.Sprintf("client/interval=%ds/pingfail=%d", ivs, k), Opt: vrt.Options{Bound: 1, Horizon: 100000}, Body: c18client(ivs, "pingfail", k, 0), Verdict: c18verdict})
@@ -303,7 +307,7 @@ func TestVerifC18(t *testing.T) {
 			}
 		}
 		for _, d := range []time.Duration{-time.Millisecond, 0, 300 * time.Millisecond} {
-			scs = append(scs, hx.Scenario{Name: fmt.Sprintf("client/interval=%ds/disconnect-reconnect%+d", ivs, d), Opt: vrt.Options{Bound: 1, Horizon: 100000}, Body: c18client(ivs, "disconnect-reconnect", 1, d), Verdict: c18verdict})
+			scs = append(scs, hx.Scenario{Name: fmt.Sprintf("client/interval=%ds/disconnect-reconnect%+d", ivs, d), Opt: vrt.Options{Bound: c18rb, Horizon: 100000}, Body: c18client(ivs, "disconnect-reconnect", 1, d), Verdict: c18verdict})
 			scs = append(scs, hx.Scenario{Name: fmt.Sprintf("client/interval=%ds/server-close-reconnect%+d", ivs, d), Opt: vrt.Options{Bound: 1, Horizon: 100000}, Body: c18client(ivs, "server-close-reconnect", 1, d), Verdict: c18verdict})
 		}
 		scs = append(scs, hx.Scenario{Name: fmt.Sprintf("client/interval=%ds/idle", ivs), Opt: vrt.Options{Bound: 1, Horizon: 100000}, Body: c18client(ivs, "idle", 2, 0), Verdict: c18verdict})
